@@ -44,7 +44,7 @@ def work(item):
 with ThreadPoolExecutor(max_workers=12) as ex:
     results = list(ex.map(work, sorted(verified.items())))
 os.makedirs(os.path.join(VERIF, 'seeded'), exist_ok=True)
-matrix = {}
+matrix = json.load(open(os.path.join(VERIF, 'seeded', 'MATRIX.json'))) if os.path.exists(os.path.join(VERIF, 'seeded', 'MATRIX.json')) else {}
 for pid, k, det, why in results:
     name = f'{pid}-{k}'
     if det is None:
